@@ -576,6 +576,7 @@ type builderSite struct {
 	call    *ssa.Call    // the constructor call (or direct allocation)
 	cmpType *types.Named // comparator type constructed
 	valType *types.Named // validator stored into an interface-embedded comparator (DirectEQ), if any
+	valStored ssa.Value  // the value stored as that validator (a conversion to the interface, or a phi of such)
 	left    ssa.Value    // value assigned to the LEFT role
 	right   ssa.Value    // value assigned to the RIGHT role
 }
@@ -724,6 +725,7 @@ func builderSites(c *engine.Context) []*builderSite {
 							if fa, ok := ref.(*ssa.FieldAddr); ok {
 								for _, r2 := range *fa.Referrers() {
 									if st, ok := r2.(*ssa.Store); ok && st.Addr == ssa.Value(fa) {
+										bs.valStored = st.Val
 										if vmi, ok := st.Val.(*ssa.MakeInterface); ok {
 											if vpt, ok := vmi.X.Type().(*types.Pointer); ok {
 												if vnt, ok := vpt.Elem().(*types.Named); ok {
@@ -768,38 +770,72 @@ func ruleVLiteral(c *engine.Context) *report.Rule {
 		conds := dominatingConds(bs.call.Block())
 		switch ci.kind {
 		case "raweq":
-			// the literal kind known at this site
-			var kind string
-			for _, dc := range conds {
-				if !dc.taken {
+			// on every path to this construction: the literal kind established by the type tests of
+			// the path, and the validator that the path stores into the comparator
+			paths, complete := enumPaths(bs.fn, 256)
+			if !complete {
+				r.Oblige(false)
+				r.Undischarged("equality builder "+load.FuncName(bs.fn)+": paths", p.RelPos(bs.call.Pos()), "too many paths through the builder")
+				break
+			}
+			seenPath := false
+			for _, fp := range paths {
+				if !fp.contains(bs.call) {
 					continue
 				}
-				switch x := dc.cond.(type) {
-				case *ssa.Extract:
-					if ta, ok := x.Tuple.(*ssa.TypeAssert); ok && x.Index == 1 {
-						if _, isPtr := ta.AssertedType.(*types.Pointer); !isPtr && kind == "" {
-							kind = tname(ta.AssertedType)
-						}
+				var kind string
+				for _, ec := range fp.conds {
+					if !ec.taken {
+						continue
 					}
-				case *ssa.BinOp:
-					if x.Op == token.EQL {
-						if cst, ok := x.Y.(*ssa.Const); ok && cst.IsNil() && kind == "" {
-							kind = "nil"
+					switch x := ec.cond.(type) {
+					case *ssa.Extract:
+						if ta, ok := x.Tuple.(*ssa.TypeAssert); ok && x.Index == 1 {
+							if _, isPtr := ta.AssertedType.(*types.Pointer); !isPtr {
+								kind = tname(ta.AssertedType)
+							}
+						}
+					case *ssa.BinOp:
+						if x.Op == token.EQL {
+							if cst, ok := x.Y.(*ssa.Const); ok && cst.IsNil() {
+								kind = "nil"
+							}
 						}
 					}
 				}
+				kept := "?"
+				var vt *types.Named
+				if bs.valStored != nil {
+					if vmi, ok := fp.resolve(bs.valStored).(*ssa.MakeInterface); ok {
+						if vpt, ok := vmi.X.Type().(*types.Pointer); ok {
+							vt, _ = vpt.Elem().(*types.Named)
+						}
+					}
+				}
+				if vt == nil {
+					vt = bs.valType
+				}
+				if vt != nil && vinfos[vt] != nil {
+					kept = vinfos[vt].kept
+				}
+				if kind == "" {
+					continue // a path on which no literal kind is established cannot reach a typed comparator construction (checked below by the kinds seen)
+				}
+				seenPath = true
+				ok := kind == kept
+				kinds[kind] = true
+				r.Instances++
+				r.Oblige(ok)
+				r.Sample("%s: literal kind %s → %s with validator keeping %s", load.FuncName(bs.fn), kind, bs.cmpType.Obj().Name(), kept)
+				if !ok {
+					r.Violation(fmt.Sprintf("equality builder %s: literal kind %s", load.FuncName(bs.fn), kind), p.RelPos(bs.call.Pos()),
+						"a %s literal is compared through a validator that keeps %s: comparison would coerce or never match", kind, kept)
+				}
 			}
-			kept := "?"
-			if bs.valType != nil && vinfos[bs.valType] != nil {
-				kept = vinfos[bs.valType].kept
-			}
-			ok := kind != "" && kind == kept
-			kinds[kind] = true
-			r.Oblige(ok)
-			r.Sample("%s: literal kind %s → %s with validator keeping %s", load.FuncName(bs.fn), kind, bs.cmpType.Obj().Name(), kept)
-			if !ok {
-				r.Violation(fmt.Sprintf("equality builder %s: literal kind %s", load.FuncName(bs.fn), kind), p.RelPos(bs.call.Pos()),
-					"a %s literal is compared through a validator that keeps %s: comparison would coerce or never match", kind, kept)
+			if !seenPath {
+				r.Oblige(false)
+				r.Violation(fmt.Sprintf("equality builder %s: typed comparison without a literal kind", load.FuncName(bs.fn)), p.RelPos(bs.call.Pos()),
+					"the direct-equality comparator is constructed on paths that establish no literal kind")
 			}
 		case "deepeq":
 			// must be on the path where the right operand is NOT a literal parameter
@@ -1004,6 +1040,29 @@ func ruleVOps(c *engine.Context) *report.Rule {
 							if al, ok := x.(*ssa.Alloc); ok {
 								if nt, ok := al.Type().(*types.Pointer).Elem().(*types.Named); ok && isNotNode(p, nt) && instrDominates(call, al) {
 									wraps = true
+								}
+							}
+							// or hands the popped query to the builder of the NOT node
+							if c2, ok := x.(*ssa.Call); ok && c2 != call && instrDominates(call, c2) {
+								if sc := c2.Call.StaticCallee(); sc != nil && sc.Blocks != nil && len(sc.Blocks) == 1 {
+									for _, y := range sc.Blocks[0].Instrs {
+										if al, ok := y.(*ssa.Alloc); ok {
+											if nt, ok := al.Type().(*types.Pointer).Elem().(*types.Named); ok && isNotNode(p, nt) {
+												// its single field is assigned the helper's parameter
+												for _, ref := range *al.Referrers() {
+													if fa, ok := ref.(*ssa.FieldAddr); ok {
+														for _, r2 := range *fa.Referrers() {
+															if st, ok := r2.(*ssa.Store); ok {
+																if _, isPrm := st.Val.(*ssa.Parameter); isPrm {
+																	wraps = true
+																}
+															}
+														}
+													}
+												}
+											}
+										}
+									}
 								}
 							}
 						}
